@@ -384,7 +384,8 @@ void Linker::add_to_symbol_list(Imports *imports, const char *name)
 
   const int len = sizeof(SymbolList) + strlen(name) + 1;
 
-  if (symbol_list_buffer_end + len >= symbol_list_buffer_size)
+  // A name read from an object file can be longer than one increment.
+  while (symbol_list_buffer_end + len >= symbol_list_buffer_size)
   {
     symbol_list_buffer_size += 0x10000;
     symbol_list_buffer =
